@@ -33,4 +33,34 @@ def tailFrom (d : List UInt8) (n : Nat) : Res CErr (List UInt8) :=
 def copyFrom (d : List UInt8) (k n : Nat) : Res CErr (List UInt8) :=
   if k + n ≤ d.length ∨ n = 0 then .ok ((d.drop k).take n) else .panic
 
+/-- `frame[i]` in `src/frame.rs` (errors of type `FrameError`) -/
+def idxF (d : List UInt8) (i : Nat) : Res FErr UInt8 := rd d i
+
+/-- `let mut data = [0u8; 8]; for i in 0..n { data[i] = fr[i + k]; }` — panics when some `i` is not an index of the array or
+some `i + k` not an index of `fr` -/
+def fill8 (fr : List UInt8) (k n : Nat) : Res FErr (List UInt8) :=
+  if n = 0 ∨ (n ≤ 8 ∧ k + n ≤ fr.length) then .ok (pad8 ((fr.drop k).take n)) else .panic
+
 end Ross.Prim
+
+namespace Ross
+/-- the hand-written model's reading of what `from_usart_frame` does after the COBS decoding (the second half of
+`fromUsart`; `fromUsart_eq_body` in `Lemmas/SourceFrame.lean`) — the fallback of the translated function -/
+def fromUsartModelBody (fr : List UInt8) : Res FErr Frame :=
+  if fr.length < 5 then .err .wrongSize else do
+  let b4 ← rd fr 4
+  if fr.length ≠ b4.toNat + 5 ∨ 8 < b4.toNat then .err .wrongSize else do
+  let b0 ← rd fr 0
+  let b1 ← rd fr 1
+  let b2 ← rd fr 2
+  let b3 ← rd fr 3
+  let ne := ((b0.toNat >>> 7) &&& 0x01) != 0
+  let st := ((b0.toNat >>> 6) &&& 0x01) != 0
+  let mf := ((b0.toNat >>> 5) &&& 0x01) != 0
+  let fid := ((b0.toNat &&& 0x0f) <<< 8) ||| b1.toNat
+  let addr := UInt16.ofNat ((b2.toNat <<< 8) ||| b3.toNat)
+  let n := b4.toNat
+  if fr.length < n + 5 then .panic else
+  pure { notError := ne, start := st, multi := mf, idLast := st, fid := fid, addr := addr,
+         dataLen := n, data := pad8 ((fr.drop 5).take n) }
+end Ross
